@@ -27,6 +27,35 @@ register reinterpret_cast return short signed sizeof static static_assert static
 throw true try typedef typeid typename union unsigned using virtual void volatile wchar_t while xor xor_eq std""".split())
 
 
+def cq(x):
+    return x.replace("\\", "\\\\").replace('"', '\\"')
+
+
+def p21_literal(s, tr, which=0):
+    """a Part 21 literal for a value of type tr (None when it would need other instances)"""
+    if tr[0] == "B":
+        return {"INTEGER": ["1", "2"], "REAL": ["1.5", "2.5"], "NUMBER": ["1.5", "2.5"], "STRING": ["'a'", "'b'"],
+                "BOOLEAN": [".T.", ".F."], "LOGICAL": [".T.", ".U."], "BINARY": ['"0A"', '"0B"']}[tr[1]][which]
+    if tr[0] == "E":
+        return None
+    if tr[0] == "A":
+        a, b = p21_literal(s, tr[6], 0), p21_literal(s, tr[6], 1)
+        if a is None:
+            return None
+        return "(" + (a + "," + b if which == 0 else b + "," + a) + ")"
+    t = s.T(tr[1])
+    b = t["body"]
+    if b[0] == "enum":
+        items = b[1]
+        return "." + items[0 if which == 0 else -1].upper() + "."
+    if b[0] == "select":
+        for m in b[1]:
+            if m[0] == "N" and s.base_kind(m) in ("INTEGER", "REAL", "NUMBER", "STRING", "BOOLEAN", "LOGICAL"):
+                return m[1].upper() + "(" + p21_literal(s, m, which) + ")"
+        return None
+    return p21_literal(s, b[1], which)
+
+
 # ------------------------------------------------------------------ accessor test code from the model's names
 def acc_inc(s, names):
     """C++ that stores a value through every generated mutator of an own explicit attribute and reads it back."""
@@ -87,12 +116,30 @@ def acc_inc(s, names):
                     continue
                 tc = cls[a["type"][1].lower()]
                 body = (f'SDAI_Application_instance * r = mk( "{tgt.lower()}" ); e->{f}( ( {tc} * ) r ); '
-                        f'accResult( {tag}, "{bk}", r && ( SDAI_Application_instance * ) e->{f}() == r );')
+                        f'accResult( {tag}, "{bk}", r && ( SDAI_Application_instance * ) e->{f}() == r && '
+                        f'( SDAI_Application_instance * ) ( ( const {C} * ) e )->{f}() == r ); '
+                        # C02_accessor_null_entity_witness put to the real code: store a null reference, read it back
+                        f'e->{f}( ( {tc} * ) 0 ); bool cn = ( ( const {C} * ) e )->{f}() == 0; bool nn = e->{f}() == 0; '
+                        f'accResult( {tag}, "ENTITY-NULL", cn && nn, cn ? "non-const accessor returned an instance" : "const accessor not null" );')
             elif bk == "AGGR":
-                body = (f'std::string s0, s1; e->{f}()->asStr( s0 ); accResult( {tag}, "{bk}", e->{f}() != 0 && '
-                        f'( ( const {C} * ) e )->{f}() == e->{f}() );')
+                lit = p21_literal(s, a["type"])
+                if lit and not a["redecl"]:
+                    # fill a second instance's member through its STEPattribute, hand that aggregate to the mutator, read back
+                    body = (f'{C} * e2 = ( {C} * ) mk( "{en}" ); STEPattribute * a2 = e2 ? attrOf( e2, "{en}", "{dn}" ) : 0; '
+                            f'if( !a2 ) accResult( {tag}, "{bk}", false, "noattr" ); else {{ a2->StrToVal( "{cq(lit)}" ); '
+                            f'std::string want = aggStr( e2->{f}() ); e->{f}( e2->{f}() ); '
+                            f'accResult( {tag}, "{bk}", want == aggStr( e->{f}() ) && want == aggStr( ( ( const {C} * ) e )->{f}() ) && want.size() > 2, want ); }}')
+                else:
+                    body = (f'accResult( {tag}, "{bk}-agree", e->{f}() != 0 && ( ( const {C} * ) e )->{f}() == e->{f}() );')
             elif bk == "SELECT":
-                body = f'accResult( {tag}, "{bk}", e->{f}() != 0 && ( ( const {C} * ) e )->{f}() == e->{f}() );'
+                lit = p21_literal(s, a["type"])
+                if lit and not a["redecl"]:
+                    body = (f'{C} * e2 = ( {C} * ) mk( "{en}" ); STEPattribute * a2 = e2 ? attrOf( e2, "{en}", "{dn}" ) : 0; '
+                            f'if( !a2 ) accResult( {tag}, "{bk}", false, "noattr" ); else {{ a2->StrToVal( "{cq(lit)}" ); '
+                            f'std::string want = selStr( e2->{f}() ); e->{f}( e2->{f}() ); '
+                            f'accResult( {tag}, "{bk}", want == selStr( e->{f}() ) && want == selStr( ( ( const {C} * ) e )->{f}() ) && want.size() > 1 && want != "$", want ); }}')
+                else:
+                    body = f'accResult( {tag}, "{bk}-agree", e->{f}() != 0 && ( ( const {C} * ) e )->{f}() == e->{f}() );'
             else:
                 continue
             out.append(pre + body + post)
@@ -237,6 +284,7 @@ def run_one(b, model_exe, s, wd, text=None, script_seed=0, script_ops=None):
     R.idx = idx
     rr = subprocess.run([exe], env=b.env(), capture_output=True, text=True, timeout=120)
     R.real = [l for l in rr.stdout.split("\n") if l]
+    R.real_acc = [l for l in R.real if l.startswith("ACC ")]
     if rr.returncode != 0 or not R.real or R.real[-1] != "END":
         R.status, R.detail = "run-fail", f"harness rc={rr.returncode}; last line {R.real[-1] if R.real else ''!r}; {rr.stderr[-300:]}"
     else:
@@ -381,7 +429,11 @@ def oracle_raw(R):
             probs.append((f"p21-order:{cls}", f"fresh instance of {n} exposes {got}, Part 21 order is {want}", ("entity", e["name"])))
     for l in acc:
         if not l.endswith(" ok") and " ok " not in l:
-            probs.append(("accessor", f"accessor does not read back what the mutator stored: {l}", None))
+            if " ENTITY-NULL " in l:
+                probs.append(("accessor:entity-null-materialised", "after storing a NULL entity reference through the mutator the non-const "
+                              f"accessor returns (and stores) a newly allocated instance instead of null: {l}", None))
+            else:
+                probs.append(("accessor", f"accessor does not read back what the mutator stored: {l}", None))
     if getattr(R, "script", None) is not None and R.status == "ok":
         e = reg_oracle(s, R.script, [l for l in R.reg_real])
         if e:
@@ -607,6 +659,10 @@ def run_batch(ctx, b, model_exe, items, label):
                 ctx.hist("attribute kinds", a["kind"] + ("-redeclared" if a["redecl"] else "") + ":" + s.base_kind(a["type"]))
         for t in s.types:
             ctx.hist("type shapes", classify_type(s, t["name"]))
+        for l in R.real_acc if hasattr(R, "real_acc") else []:
+            w = l.split()
+            if len(w) >= 4:
+                ctx.hist("accessor round trips", w[2] + ":" + w[3])
         if report(ctx, b, model_exe, R, f"{label}/{nm}"):
             nprob += 1
         shutil.rmtree(os.path.join(ctx.work, f"{label}-{i}"), ignore_errors=True)
@@ -628,7 +684,7 @@ def setup(ctx):
         "symbol-table iteration order is a parameter of the model (theorems quantify over it; dumps are compared sorted)",
         "single-schema inputs; aggregate bounds are integer literals or `?`; no WHERE/UNIQUE rules, no USE/REFERENCE",
     ]
-    ok = ctx.lean("StepModel.Props.C02", exes=["m_c02"], extractors=["dictgen"])
+    ok = ctx.lean("StepModel.Props.C02", exes=["m_c02"], extractors=["dictgen", "accessors"])
     b = ctx.build("plain")
     return ok, b, ctx.model_exe("m_c02")
 
